@@ -168,6 +168,9 @@ def run(eng, rep) -> None:
             if isinstance(w, ast.AugAssign) and norm(w.target) == CUR:
                 advs.append(w)
             elif isinstance(w, ast.Assign) and any(norm(t) == CUR for t in w.targets):
+                wid = cfgf.node_for(w)
+                if f is gen and isinstance(w.value, ast.Constant) and w.value.value == 0 and wid is not None and nid is not None and cfgf.every_path_passes(nid, {wid}):
+                    continue  # the reset of R04.1: it comes before every emission
                 advs.append(w)
         good = []
         defs_f = Defs(f.node)
@@ -307,9 +310,49 @@ def r047(eng, rep, enc, reach, live, arg_of) -> None:
     is concatenated into the leaf's name; in every layout method the parameter of that name plays the role."""
     prog, cg = eng.prog, eng.cg
     pnames = set()
+
+    def record_sites(f, nm):
+        """`leaf.name` where `leaf` iterates over what a layout generator yields: the expressions the yielded records are
+        built with for that field -> [(function, expr)] ; None when nm is not of that form"""
+        if not (isinstance(nm, ast.Attribute) and isinstance(nm.value, ast.Name)):
+            return None
+        loops = [l for l in walk_local(f.node) if isinstance(l, ast.For) and isinstance(l.target, ast.Name) and l.target.id == nm.value.id and isinstance(l.iter, ast.Call)]
+        if not loops:
+            return None
+        out = []
+        for g in reach:
+            for y in walk_local(g.node):
+                if isinstance(y, ast.Yield) and isinstance(y.value, ast.Call):
+                    r = prog.resolve_expr_symbol(g.module, g, y.value.func)
+                    if r and r[0] == "class" and r[1] in prog.classes:
+                        order = prog.classes[r[1]].field_order
+                        if nm.attr in order:
+                            i = order.index(nm.attr)
+                            a = next((k.value for k in y.value.keywords if k.arg == nm.attr), None)
+                            if a is None and i < len(y.value.args):
+                                a = y.value.args[i]
+                            if a is not None:
+                                out.append((g, a))
+        return out
     for f, n, v in live:
         nm = arg_of(v, "name")
         if nm is None:
+            continue
+        rs = record_sites(f, nm)
+        if rs is not None:
+            if not rs:
+                rep.undecided("R04.7", f.file, f.qual, "leaf name <- %s" % norm(nm, 50), "the name is a field of a record produced elsewhere; no construction site of such records found among the layout steps")
+                continue
+            for g, a in rs:
+                gps = {p.arg for p in g.params}
+                atoms = Provenance(g.node).of(a)
+                cand = [x.split("[")[0].split(".")[0] for x in atoms if not x.startswith(("const:", "call:")) and x.split("[")[0].split(".")[0] in gps - {"self"}]
+                strs = [p.arg for p in g.params if p.arg in cand and (p.annotation is None or norm(p.annotation) == "str")]
+                for c in strs:
+                    pnames.add(c)
+                    rep.ok("R04.7", g.file, g.qual, "leaf record name <- %s" % norm(a, 50), "leaf name is built from the received prefix '%s'" % c)
+                if not strs:
+                    rep.violation("R04.7", g.file, g.qual, "leaf record name <- %s" % norm(a, 50), "the leaf's name does not include the prefix received from the enclosing struct: leaves of two nested structs of the same type get the same name")
             continue
         ps = {p.arg for p in f.params}
         atoms = Provenance(f.node).of(nm)
